@@ -57,46 +57,28 @@ Proof. exact err_request_400. Qed.
 Print Assumptions C05_bad_input_400_close.
 
 (* ---- answered once, in order, never interleaved ------------------------------------------------------------- *)
-(* FULL statement: in every reachable state the request numbers of the responses on the wire are strictly increasing
-   (at most one response per request, in request order), every response but the last is complete (no bytes of two
-   responses interleave), and an incomplete last response means the connection is closed or its handler is still
-   streaming it.  After the repairs ff054f9 (HTTPException after the response was started -> ConnectionError) and
-   ba690df (a failed prepare() un-starts the response) ONE way to refute it is left in the faithful model, replayed on
-   the real code (known_findings.d/C05.json): the handler starts a streamed response and then RETURNS a different,
-   fresh response object; finish_response() writes its head behind the unfinished first response and goes on. *)
-Theorem C05_order_once_refuted :
-  exists c s, Reach c s /\ closed s = false /\ pc s = PWait /\
-              all_done (removelast (wire s)) = false /\ rids (wire s) = [0; 0].
-Proof. exact order_once_refuted. Qed.
-Print Assumptions C05_order_once_refuted.
+(* FULL statements, for EVERY reachable state / EVERY handler ending (returning anything, raising anything at any point,
+   cancellation, timeouts, swallowed prepare() errors).  They hold since the repairs ff054f9 (HTTPException after the
+   response was started), ba690df (a failed prepare() un-starts the response) and 2a9b996 (a response object other than the
+   started one is refused by finish_response()); each of the three was a refutation witness of the faithful model before,
+   replayed on the real code, and is now a corpus regression case and a translator shape obligation. *)
 
-(* What holds: the same statement for all histories in which no handler returns a fresh response after it started
-   another one (`benign`: EDone (ORet ..) only when nothing was started).  Everything else is allowed: every event,
-   raising any exception at any point (also after streaming started), cancellation, timeouts, returning a response whose
-   prepare() failed, returning non-responses. *)
-Theorem C05_order_once_partial : forall c s, ReachB c s ->
+(* the request numbers of the responses on the wire are strictly increasing (at most one response per request, in request
+   order); every response but the last is complete (no bytes of two responses interleave); an incomplete last response
+   means the connection is closed or its handler is still streaming it *)
+Theorem C05_order_once : forall c s, Reach c s ->
   StronglySorted N.lt (rids (wire s)) /\
   all_done (removelast (wire s)) = true /\
   (all_done (wire s) = false -> closed s = true \/ exists cur, pc s = PHandler cur true).
 Proof. exact order_once. Qed.
-Print Assumptions C05_order_once_partial.
+Print Assumptions C05_order_once.
 
-(* FULL statement: whenever a handler ends, either the connection is closed or exactly one complete response for that
-   request has been appended.  REFUTED by the same handler ending: a cut-short response AND a complete one are appended
-   and the connection stays open. *)
-Theorem C05_answered_or_closed_refuted :
-  exists c s s', Reach c s /\ pc s = PHandler (QMsg {| m_id := 0; m_close := false; m_body := false |}) true /\
-                 step c s (EDone (ORet true 200)) = Some s' /\ closed s' = false /\
-                 out s' = out s ++ [{| r_id := Some 0; r_status := 200; r_done := false |};
-                                    {| r_id := Some 0; r_status := 200; r_done := true |}].
-Proof. exact answered_or_closed_refuted. Qed.
-Print Assumptions C05_answered_or_closed_refuted.
-
-Theorem C05_answered_or_closed_partial : forall c s cur started o s',
-  Reach c s -> pc s = PHandler cur started -> benign s (EDone o) -> step c s (EDone o) = Some s' ->
+(* whenever a handler ends, either the connection is closed or exactly one complete response for that request has been appended *)
+Theorem C05_answered_or_closed : forall c s cur started o s',
+  Reach c s -> pc s = PHandler cur started -> step c s (EDone o) = Some s' ->
   closed s' = true \/ exists status, out s' = out s ++ [{| r_id := id_of cur; r_status := status; r_done := true |}].
 Proof. exact answered_or_closed_reach. Qed.
-Print Assumptions C05_answered_or_closed_partial.
+Print Assumptions C05_answered_or_closed.
 
 (* ---- non-vacuity -------------------------------------------------------------------------------------------- *)
 
@@ -124,20 +106,21 @@ Example C05_example_400 :
 Proof. exact example_400. Qed.
 Print Assumptions C05_example_400.
 
-(* a benign history: plain, streamed, HTTPException, and HTTPException raised after streaming started (connection closed mid-response) *)
-Example C05_example_benign :
-  exists s, runb cfg0 init [EData (heads 4); EDone (ORet true 200); EStart; EDone OStreamed; EDone (OHttp 404); EStart; EDone (OHttp 403)] = Some s /\
-            ReachB cfg0 s /\ closed s = true /\
+(* a history with plain, streamed, HTTPException, and HTTPException raised after streaming started (connection closed mid-response) *)
+Example C05_example_mixed :
+  exists s, run cfg0 init mixed_es = Some s /\
+            Reach cfg0 s /\ closed s = true /\
             List.map (fun r => (r_id r, r_status r, r_done r)) (wire s) = [(Some 0, 200, true); (Some 1, 200, true); (Some 2, 404, true); (Some 3, 200, false)].
-Proof. exact example_benign. Qed.
-Print Assumptions C05_example_benign.
+Proof. exact example_mixed. Qed.
+Print Assumptions C05_example_mixed.
 
-(* the two repaired endings close the connection: HTTPException after the response was started; returned response whose
-   prepare() had failed *)
+(* the three repaired endings close the connection *)
 Example C05_example_repaired :
-  exists s1 s2,
+  exists s1 s2 s3,
     run cfg0 init [EData [IHead false false]; EStart; EDone (OHttp 404)] = Some s1 /\
     run cfg0 init [EData [IHead false false]; EDone OSwallow] = Some s2 /\
-    closed s1 = true /\ List.map r_done (out s1) = [false] /\ closed s2 = true /\ out s2 = [].
+    run cfg0 init [EData [IHead false false]; EStart; EDone (ORet true 200)] = Some s3 /\
+    closed s1 = true /\ List.map r_done (out s1) = [false] /\ closed s2 = true /\ out s2 = [] /\
+    closed s3 = true /\ List.map r_done (out s3) = [false].
 Proof. exact example_repaired. Qed.
 Print Assumptions C05_example_repaired.
